@@ -64,7 +64,8 @@ def run(tier, seed, only=None):
     a, b, k = var("a"), var("b"), var("k")
     t = symarray("t", (3,))
     pos = [gt(a, 0), gt(b, 0), gt(k, 0)]
-    fixed = {"a": 1.7, "b": 1.3, "k": 2.0}
+    # (angles enter the witness search with both signs: a relation that only fails for a negative angle must find its witness)
+    fixed = {"a": 1.7, "b": 1.3, "k": 2.0, "alpha[0]": (0.2, -0.2), "beta[0]": (0.1, -0.1)}
     # the full-span case admits y translations; the 3x2 case has two chordwise panels (offsets between chordwise rows)
     cfgs = [("symL_2x2", [K.surface(2, 2, True)]), ("full_2x3", [K.surface(2, 3, False)]), ("symL_3x2", [K.surface(3, 2, True)])]
     if tier == "thorough":
